@@ -19,7 +19,7 @@ C_RES = 10.0
 RULE = ("(a) kernel cases: random integer Phi tensors and cores (ranks 1..3, modes 1..4, rectangular where the kernel allows), all kernels incl. banded local product "
         "(band 0..2) and _LinearOp.matvec with prec None/'c'/'r' (dyadic data so that the block inverses are exact); (b) monitor: SPD / diagonally dominant / "
         "Laplacian-like systems, order 2..5, mode sizes 2..12, operator ranks 1..4, rhs ranks 1..4, eps in [1e-10,1e-3], preconditioner None/'c'/'r', "
-        "max_full in {0,500}, local_solver 1 (GMRES) and 2 (BiCGSTAB), guess None/random, seeds. Non-trivial: every kernel case with some rank>1; every monitor run.")
+        "max_full in {0,500}, local_solver 1 (GMRES) and 2 (BiCGSTAB), guess None/random, seeds; every 14th run a restart family (Laplacian 10..12^3, eps<=1e-8, no preconditioner); gmres / gmres_restart called directly on dense well-conditioned systems (n 3..14, zero and random starts, full and short Krylov spaces). Non-trivial: every kernel case with some rank>1; every monitor run.")
 ASSUMPTIONS = ["the residual inequality is MONITORED on the real code (kind K: no convergence theorem exists for AMEn); constant C = %g fixed after measuring the unchanged tree" % C_RES,
                "torch.linalg.solve/inv, GMRES/BiCGSTAB arithmetic are float computations outside the model",
                "opt_einsum contracts what its subscript string says (trusted primitive)"]
@@ -154,7 +154,11 @@ def system(rng, kind, N):
     return A, b
 
 
+WITNESS = {0: (10, [10, 12], 1e-8), 1: (8, [8, 9], 1e-8)}
+
+
 def monitor_cases(rng, tier, stats):
+    import random
     cases = []
     n_runs = 28 if tier == "quick" else 400
     for c in range(n_runs):
@@ -169,15 +173,28 @@ def monitor_cases(rng, tier, stats):
         max_full = rng.choice([0, 500])
         local_solver = rng.choice([1, 2]) if max_full == 0 else 1
         guess = rng.random() < 0.4
+        fam = ""
+        if c % 14 == 5:
+            # structured family: local problems larger than one GMRES cycle (restart logic), tight eps, no preconditioner
+            d = 3
+            N = [rng.randint(10, 12) for _ in range(d)]
+            kind, prec, local_solver = "laplace", None, 1
+            max_full = rng.choice([0, 500])
+            eps = 10.0 ** rng.uniform(-10, -8)
+            fam = "/gmres-restart"
         seed = rng.randrange(1 << 30)
-        label = "%s/d%d/prec-%s/maxfull%d/ls%d%s" % (kind, d, prec, max_full, local_solver, "/guess" if guess else "")
+        if c in WITNESS:
+            # fixed witnesses of the listed finding C12/bicgstab-local-solver-residual (deterministic: every random draw below is seeded)
+            seed, N, eps = WITNESS[c]
+            d, kind, prec, max_full, local_solver, guess, fam = len(N), "laplace", None, 0, 2, False, "/witness"
+        label = "%s/d%d/prec-%s/maxfull%d/ls%d%s%s" % (kind, d, prec, max_full, local_solver, "/guess" if guess else "", fam)
 
         box = {}
 
         def impl(N=N, kind=kind, eps=eps, prec=prec, max_full=max_full, local_solver=local_solver, guess=guess, seed=seed, label=label, box=box):
             tn.manual_seed(seed)
             np.random.seed(seed % (2 ** 32))
-            A, b = system(rng, kind, N)
+            A, b = system(random.Random(seed) if label.endswith("/witness") else rng, kind, N)
             x0 = torchtt.randn(N, [1] + [2] * (len(N) - 1) + [1]) if guess else None
             x = S.amen_solve(A, b, x0=x0, eps=eps, nswp=40, preconditioner=prec, max_full=max_full, local_solver=local_solver,
                              use_cpp=False, verbose=False, kickrank=4)
@@ -200,10 +217,61 @@ def monitor_cases(rng, tier, stats):
     return cases
 
 
+class _DenseOp:
+    def __init__(self, A):
+        self.A = A
+
+    def matvec(self, v):
+        return self.A @ tn.reshape(v, [-1, 1])
+
+
+def local_solver_cases(rng, tier):
+    """The GMRES local solver called directly (contract monitor of the component the sweep relies on): when it reports convergence the
+    true relative residual is within the threshold, and a cycle never returns a worse iterate than its start x0 (minimal-residual
+    property), for zero and non-zero starts, full and restarted Krylov spaces."""
+    import torchtt._iterative_solvers as IS
+    cases = []
+    for c in range(12 if tier == "quick" else 150):
+        n = rng.randint(3, 14)
+        m = rng.choice([n, n, rng.randint(2, max(2, n - 1))])
+        restart = rng.random() < 0.5
+        zero = rng.random() < 0.3
+        thr = 10.0 ** rng.uniform(-11, -4)
+        seed = rng.randrange(1 << 30)
+        label = "localsolver/%s/%s/x0-%s" % ("gmres_restart" if restart else "gmres", "full" if m == n else "short", "zero" if zero else "random")
+        box = {}
+
+        def impl(n=n, m=m, restart=restart, zero=zero, thr=thr, seed=seed, box=box):
+            g = tn.Generator().manual_seed(seed)
+            A = tn.randn((n, n), generator=g, dtype=tn.float64) + 2.0 * n * tn.eye(n, dtype=tn.float64)
+            b = tn.randn((n, 1), generator=g, dtype=tn.float64)
+            x0 = tn.zeros((n, 1), dtype=tn.float64) if zero else tn.randn((n, 1), generator=g, dtype=tn.float64)
+            op = _DenseOp(A)
+            if restart:
+                x, flag, it = IS.gmres_restart(op, b, x0.clone(), n, m, thr, 6)
+            else:
+                x, flag, it = IS.gmres(op, b, x0.clone(), n, m, thr)
+            x = tn.reshape(x, [-1, 1])
+            nb = float(tn.linalg.norm(b))
+            box.update(res=float(tn.linalg.norm(b - A @ x)) / nb, res0=float(tn.linalg.norm(b - A @ x0)) / nb, flag=bool(flag))
+            return "ok"
+
+        def oracle(box=box, thr=thr, label=label):
+            if "res" not in box:
+                return "the local solver raised"
+            if box["flag"] and box["res"] > 10 * thr + 1e-13:
+                return "%s reports convergence but the relative residual is %.3g (threshold %.2g)" % (label, box["res"], thr)
+            if box["res"] > box["res0"] * (1 + 1e-8) + 1e-13:
+                return "%s returned an iterate with residual %.3g, worse than its start (%.3g)" % (label, box["res"], box["res0"])
+            return None
+        cases.append(Case(None, impl, oracle, "monitor/" + label, True, desc="%s n=%d m=%d thr=%.2g seed=%d" % (label, n, m, thr, seed)))
+    return cases
+
+
 def run(res, rng, tier, known):
     from common import run_cases
     stats = []
-    cases = kernel_cases(rng, tier) + monitor_cases(rng, tier, stats)
+    cases = kernel_cases(rng, tier) + local_solver_cases(rng, tier) + monitor_cases(rng, tier, stats)
     run_cases(res, cases, known)
     if stats:
         res.extra["contract_monitor_runs"] = len(stats)
